@@ -32,9 +32,21 @@ def rndC (sbit e m E : Nat) : Nat :=
 def rndB (sbit e m len : Nat) : Nat :=
   flet (Nat.add e len) fun t =>
   rndC sbit e m (cond (Nat.ble t 4150) 1 (Nat.sub t 4149))     -- E = max 1 (e + len - 4096 - 53)
+/-- one binary-search step of the bit length: if `m ≥ 2^k`, continue with `m >>> k` and `acc + k` -/
+def lgS (k : Nat) (next : Nat → Nat → Nat) (m acc : Nat) : Nat :=
+  flet (Nat.shiftRight m k) fun h => cond (Nat.beq h 0) (next m acc) (flet (Nat.add acc k) (next h))
+def lgEnd (_m acc : Nat) : Nat := acc
+/-- `lg m = Nat.log2 m` (`Proofs/F64Lg.lean`), by binary search on shifts: the kernel does not accelerate
+    `Nat.log2` (it unfolds its recursion, ~1.5 ms for a 106-bit product), this takes ~0.05 ms -/
+def lg (m : Nat) : Nat :=
+  cond (Nat.beq (Nat.shiftRight m 128) 0)
+    (lgS 64 (lgS 32 (lgS 16 (lgS 8 (lgS 4 (lgS 2 (lgS 1 lgEnd)))))) m 0)
+    (cond (Nat.beq (Nat.shiftRight m 2048) 0)
+      (lgS 1024 (lgS 512 (lgS 256 (lgS 128 (lgS 64 (lgS 32 (lgS 16 (lgS 8 (lgS 4 (lgS 2 (lgS 1 lgEnd)))))))))) m 0)
+      (Nat.log2 m))
 def rnd (sbit m e : Nat) : Nat :=
   flet e fun e => flet m fun m =>
-  cond (Nat.beq m 0) sbit (flet (Nat.succ (Nat.log2 m)) (rndB sbit e m))
+  cond (Nat.beq m 0) sbit (flet (Nat.succ (lg m)) (rndB sbit e m))
 
 @[inline] def ebits (x : Nat) : Nat := Nat.mod (Nat.shiftRight x 52) 2048
 @[inline] def isFin (x : Nat) : Bool := Nat.blt (ebits x) 2047
@@ -58,12 +70,20 @@ def addB (x y ex ey e : Nat) : Nat :=
   flet (Nat.shiftLeft (mant x ex) (Nat.sub (exf ex) e)) fun a =>
   flet (Nat.shiftLeft (mant y ey) (Nat.sub (exf ey) e)) fun b =>
   addC (Nat.mul (Nat.shiftRight x 63) P63) (Nat.mul (Nat.shiftRight y 63) P63) e a b
+/-- finite `x + y`. Shortcuts (bit-identical to the general path, which would shift a significand by up to
+    1074 bits): `x + (±0) = x` and `(±0) + y = y` for a non-zero other operand; and when the exponent fields
+    differ by ≥ 56 the smaller operand is below 1/8 ulp of the larger (which is then normal), so the
+    round-to-nearest sum is the larger operand, also just below a power of two where the spacing halves. -/
+def addA (x y ex ey : Nat) : Nat :=
+  cond (Nat.beq (Nat.mod y P63) 0) (cond (Nat.beq (Nat.mod x P63) 0) (addB x y ex ey 1) x)
+    (cond (Nat.beq (Nat.mod x P63) 0) y
+      (cond (Nat.ble (Nat.add (exf ey) 56) (exf ex)) x
+        (cond (Nat.ble (Nat.add (exf ex) 56) (exf ey)) y
+          (flet (cond (Nat.ble (exf ex) (exf ey)) (exf ex) (exf ey)) (addB x y ex ey)))))
 def add (x y : Nat) : Nat :=
   flet x fun x => flet y fun y =>
   flet (ebits x) fun ex => flet (ebits y) fun ey =>
-  cond (Nat.blt ex 2047 && Nat.blt ey 2047)
-    (flet (cond (Nat.ble (exf ex) (exf ey)) (exf ex) (exf ey)) (addB x y ex ey))
-    (FB.add x y)
+  cond (Nat.blt ex 2047 && Nat.blt ey 2047) (addA x y ex ey) (FB.add x y)
 def neg (x : Nat) : Nat := cond (Nat.ble P63 x) (Nat.sub x P63) (Nat.add x P63)
 def sub (x y : Nat) : Nat := add x (neg y)
 
@@ -72,7 +92,7 @@ def divF (x y ex ey : Nat) : Nat :=
   flet (Nat.mul (Nat.mod (Nat.add (Nat.shiftRight x 63) (Nat.shiftRight y 63)) 2) P63) fun sbit =>
   cond (Nat.beq my 0) (cond (Nat.beq mx 0) FB.NAN (Nat.add sbit PINF)) <|
   cond (Nat.beq mx 0) sbit <|
-  flet (Nat.add 65 (Nat.log2 my)) fun k =>
+  flet (Nat.add 65 (lg my)) fun k =>
   flet (Nat.shiftLeft mx k) fun n =>
   flet (Nat.div n my) fun q =>
   flet (cond (Nat.beq (Nat.sub n (Nat.mul q my)) 0) (Nat.mul 2 q) (Nat.succ (Nat.mul 2 q))) fun q2 =>
